@@ -22,6 +22,9 @@ B. CONTRACT — the clauses of the property, for every run of the atomic flat sp
 import Pandora.Proofs.C02Reach
 import Pandora.Bridge.C02Locks
 import Pandora.Bridge.C02DoAt
+import Pandora.Proofs.C02Cb
+import Pandora.Bridge.C02Cb
+import Pandora.Bridge.C02Src
 
 set_option linter.unusedVariables false
 
@@ -429,6 +432,152 @@ theorem C02_onFinish_sound (segs0 : List Seg) (newer older : Log) (e : Nat × In
           rfl
     · exact ih' x hx
 
+/-! ### callbackOnFinishSchedule under CONCURRENT callers (`Model/C02Cb.lean`)
+
+`sync.Once` is a lock with a done flag; entering and leaving `onFinish` are separate actions (the callback is the
+user's code and may take arbitrarily long); NOTHING is assumed about the wrapped schedule (`Inner ι`: any state, any
+results, calls that take any number of actions).  For every number of callers, all their programs and every
+schedule of atomic actions: -/
+
+section Callback
+open Pandora.Model.C02.CbW Pandora.Proofs.C02Cb
+
+/-- **onFinish runs at most once** — the number of times it was entered is the number of `cbBegin` events, at most
+one, and one exactly when the Once is not fresh any more. -/
+theorem C02_cb_once {ι : Type} (I : Inner ι) (x : ι) (progs : List (List Op)) (sched : List (Nat × Int)) :
+    (wrun I (winit x progs) sched).calls ≤ 1 ∧
+    begins (wrun I (winit x progs) sched).log = (wrun I (winit x progs) sched).calls ∧
+    ((wrun I (winit x progs) sched).calls = 1 ↔ (wrun I (winit x progs) sched).once ≠ .fresh) := by
+  have h := wrun_inv I sched _ (winit_inv x progs)
+  refine ⟨?_, h.nbeg, ?_⟩
+  · rw [h.calls]; split <;> omega
+  · rw [h.calls]
+    constructor
+    · intro h1 h2; rw [h2] at h1; simp at h1
+    · intro h1; simp [h1]
+
+/-- **Nobody is told that the schedule is finished before onFinish has COMPLETED**: whenever a call of the wrapper
+returns a finishing result (`Next` with `!ok`, `Left` with 0) — to the caller that ran the callback or to any other
+caller, however their calls overlap — the callback has been entered exactly once and has already returned. -/
+theorem C02_cb_completed_before_known {ι : Type} (I : Inner ι) (x : ι) (progs : List (List Op)) (sched : List (Nat × Int))
+    (newer older : WLog) (e : Nat × Int × WEv) (hl : (wrun I (winit x progs) sched).log = newer ++ e :: older)
+    (r : Ret) (he : e.2.2 = .ret r) (hf : finishing r = true) :
+    (∃ c ∈ older, c.2.2 = .cbEnd) ∧ (wrun I (winit x progs) sched).calls = 1 := by
+  have h := wrun_inv I sched _ (winit_inv x progs)
+  have hlog := h.log
+  rw [hl] at hlog
+  have hev := logOK_suffix newer hlog
+  unfold EvOK at hev
+  rw [he] at hev
+  obtain ⟨c, hc, hce⟩ := hev.2 hf
+  refine ⟨⟨c, hc, hce⟩, ?_⟩
+  obtain ⟨o1, o2, rfl⟩ := List.append_of_mem hc
+  have hlog2 : LogOK ((newer ++ e :: o1) ++ c :: o2) := by simpa using hlog
+  have hev2 := logOK_suffix (newer ++ e :: o1) hlog2
+  unfold EvOK at hev2
+  rw [hce] at hev2
+  obtain ⟨b, hb, hbe⟩ := hev2
+  have hpos : 0 < begins (wrun I (winit x progs) sched).log := by
+    unfold begins
+    rw [List.countP_pos_iff]
+    exact ⟨b, by rw [hl]; simp [hb], by simp [isBegin, hbe]⟩
+  have h1 := (C02_cb_once I x progs sched).1
+  have h2 := h.nbeg
+  omega
+
+/-- **onFinish is entered only by a caller whose wrapped call returned a finishing result**, and nobody entered it before. -/
+theorem C02_cb_only_when_finished {ι : Type} (I : Inner ι) (x : ι) (progs : List (List Op)) (sched : List (Nat × Int))
+    (newer older : WLog) (e : Nat × Int × WEv) (hl : (wrun I (winit x progs) sched).log = newer ++ e :: older)
+    (he : e.2.2 = .cbBegin) :
+    (∃ r, lastGot e.1 older = some r ∧ finishing r = true) ∧ ∀ y ∈ older, y.2.2 ≠ .cbBegin := by
+  have hlog := (wrun_inv I sched _ (winit_inv x progs)).log
+  rw [hl] at hlog
+  have hev := logOK_suffix newer hlog
+  unfold EvOK at hev
+  rw [he] at hev
+  exact hev
+
+/-- **The wrapper is transparent**: every call of it returns what the wrapped call it made returned. -/
+theorem C02_cb_transparent {ι : Type} (I : Inner ι) (x : ι) (progs : List (List Op)) (sched : List (Nat × Int))
+    (newer older : WLog) (e : Nat × Int × WEv) (hl : (wrun I (winit x progs) sched).log = newer ++ e :: older)
+    (r : Ret) (he : e.2.2 = .ret r) : lastGot e.1 older = some r := by
+  have hlog := (wrun_inv I sched _ (winit_inv x progs)).log
+  rw [hl] at hlog
+  have hev := logOK_suffix newer hlog
+  unfold EvOK at hev
+  rw [he] at hev
+  exact hev.1
+
+/-- **No deadlock**: as long as some caller has calls to make, some caller can make an action that is not "blocked in
+`Do`" — a blocked caller waits for the one inside `onFinish`, who is never blocked by the wrapper. -/
+theorem C02_cb_no_deadlock {ι : Type} (I : Inner ι) (x : ι) (progs : List (List Op)) (sched : List (Nat × Int))
+    (hsome : ∃ (i : Nat) (th : WThread), (wrun I (winit x progs) sched).thr[i]? = some th ∧ th.todo ≠ []) :
+    ∃ (i : Nat) (th : WThread), (wrun I (winit x progs) sched).thr[i]? = some th ∧ th.todo ≠ [] ∧
+      ¬ (∃ r, th.pc = .wait r ∧ (wrun I (winit x progs) sched).once ≠ .done) := by
+  have h := wrun_inv I sched _ (winit_inv x progs)
+  obtain ⟨i, th, hth, htodo⟩ := hsome
+  by_cases hb : ∃ r, th.pc = .wait r ∧ (wrun I (winit x progs) sched).once ≠ .done
+  · obtain ⟨r, hpc, hnd⟩ := hb
+    have hT := (h.thr i th hth).2
+    rw [hpc] at hT
+    obtain ⟨_, _, hnf⟩ := hT
+    cases ho : (wrun I (winit x progs) sched).once with
+    | fresh => exact absurd ho hnf
+    | done => exact absurd ho hnd
+    | running j =>
+      obtain ⟨th2, r2, hth2, hpc2⟩ := h.owner j ho
+      refine ⟨j, th2, hth2, (h.thr j th2 hth2).1 (by rw [hpc2]; intro hx; cases hx), ?_⟩
+      rintro ⟨r3, hpc3, _⟩
+      rw [hpc2] at hpc3; cases hpc3
+  · exact ⟨i, th, hth, htodo, hb⟩
+
+/-- **Over the flat spec**: when the wrapped schedule is (linearizable to) the atomic flat spec, the results of the
+wrapped calls, in the order in which those calls returned, are a run of the flat spec — so everything in part B holds
+for what the callers of the WRAPPER get (`C02_cb_transparent`). -/
+theorem C02_cb_flat (A0 : Abs) (progs : List (List Op)) (sched : List (Nat × Int)) (clk0 : Int) (hclk : ClockOK clk0 sched) :
+    Reach A0 (gotLog (wrun absInner (winit A0 progs) sched).log) (wrun absInner (winit A0 progs) sched).inner ∧
+    LogMono (lastClk clk0 sched) (gotLog (wrun absInner (winit A0 progs) sched).log) :=
+  abs_run sched (winit A0 progs) A0 clk0 hclk rfl trivial
+
+/-- **onFinish never runs while a token is still to come**: once `onFinish` has been entered, no wrapped call of any
+caller returns a token any more (clock not going back). -/
+theorem C02_cb_sound (segs0 : List Seg) (progs : List (List Op)) (sched : List (Nat × Int)) (clk0 : Int)
+    (hclk : ClockOK clk0 sched) (newer older : WLog) (e : Nat × Int × WEv)
+    (hl : (wrun absInner (winit (Abs.running segs0) progs) sched).log = newer ++ e :: older) (he : e.2.2 = .cbBegin) :
+    ∀ y ∈ newer, ∀ tx, y.2.2 ≠ .got (.tok tx true) := by
+  obtain ⟨⟨r, hlast, hfin⟩, _⟩ := C02_cb_only_when_finished absInner _ progs sched newer older e hl he
+  obtain ⟨o1, now', o2, rfl⟩ := lastGot_mem hlast
+  obtain ⟨hreach, hmono⟩ := C02_cb_flat (.running segs0) progs sched clk0 hclk
+  rw [hl] at hreach hmono
+  have hsplit : gotLog (newer ++ e :: (o1 ++ (e.1, now', WEv.got r) :: o2)) =
+      (gotLog newer ++ gotLog (e :: o1)) ++ (e.1, now', Out.ret r) :: gotLog o2 := by
+    have h1 : newer ++ e :: (o1 ++ (e.1, now', WEv.got r) :: o2) = (newer ++ e :: o1) ++ ((e.1, now', WEv.got r) :: o2) := by simp
+    rw [h1, gotLog_append, gotLog_append]
+    rfl
+  rw [hsplit] at hreach hmono
+  have hfe : isFinishEv (e.1, now', Out.ret r) := by
+    cases r with
+    | tok tx ok =>
+      cases ok with
+      | true => simp [finishing] at hfin
+      | false => exact ⟨.tok tx false, rfl, rfl⟩
+    | cnt n =>
+      refine ⟨.cnt n, rfl, ?_⟩
+      simp only [finishing] at hfin
+      simpa [finishObs] using hfin
+    | panic m => simp [finishing] at hfin
+  have hs := C02_onFinish_sound segs0 _ _ _ _ _ hreach hmono hfe
+  intro y hy tx hyt
+  have hmem : (y.1, y.2.1, Out.ret (.tok tx true)) ∈ gotLog newer ++ gotLog (e :: o1) := by
+    apply List.mem_append_left
+    unfold gotLog
+    rw [List.mem_filterMap]
+    exact ⟨y, hy, by simp [gotEv, hyt]⟩
+  have := hs _ hmem
+  simp [okTok] at this
+
+end Callback
+
 /-! ### instance_step -/
 
 /-- **instance_step**: `NewInstanceStep(from, to, step, d)` is the flat succession once(from), then k times
@@ -500,6 +649,69 @@ theorem C02_leaf_is_source (duration n : Int) (doAt : Int → Int) (hn : 0 ≤ n
   rw [Pandora.Bridge.C02DoAt.new_leaf]
   simp [leafU]
 
+/-- **The wrapper of the model is the wrapper of the source** (`Gen/C02Cb.lean` is regenerated from
+core/coreutil/schedule.go): `Next` / `Left` call the wrapped method of the same name and return its results, and the
+only other thing they do is `Do(onFinish)` on a `sync.Once`, exactly when the result is a finishing one. -/
+theorem C02_cb_is_source (op : Op) (r : Ret) (h : Pandora.Bridge.C02Cb.shaped op r) :
+    Pandora.Bridge.C02Cb.innerOf Pandora.Gen.C02Cb.cbRows (Pandora.Bridge.C02Cb.opName op) = [Pandora.Bridge.C02Cb.opName op] ∧
+    Pandora.Bridge.C02Cb.actsOf Pandora.Gen.C02Cb.cbRows (Pandora.Bridge.C02Cb.opName op) r =
+      if Pandora.Model.C02.CbW.finishing r then [.guardedCall "sync.Once" "onFinish"] else [] :=
+  Pandora.Bridge.C02Cb.source_is_model op r h
+
+/-- **The unlimited leaf of the model is the `unlimitedSchedule` of the source** (`Gen/C02Src.lean` re-translates
+unlilmited.go and start_sync.go on every check): read through `toLeaf`, `NewUnlimited` is the unstarted model leaf,
+and `Start` (double-start panic), `Next` (auto-start at the clock reading, never a time before the part's start, the
+finish time once the clock has reached it) and `Left` (-1 until started and finished, then 0) of the source do
+exactly what `Leaf.start/next/left` do. -/
+theorem C02_unlimited_is_source (duration now0 : Int) :
+    Pandora.Bridge.C02Src.WF (Pandora.Gen.C02Src.NewUnlimited duration now0) ∧
+    Pandora.Bridge.C02Src.toLeaf (Pandora.Gen.C02Src.NewUnlimited duration now0) = Leaf.unl duration none ∧
+    (∀ s, Pandora.Bridge.C02Src.WF s → ∀ now t,
+      (∃ s' tx ok, Pandora.Gen.C02Src.unlimitedSchedule_Next now s = .ok ((tx, ok), s') ∧
+        Leaf.next (Pandora.Bridge.C02Src.toLeaf s) now = .ok (Pandora.Bridge.C02Src.toLeaf s', tx, ok) ∧
+        Pandora.Bridge.C02Src.WF s') ∧
+      (∃ l, Pandora.Gen.C02Src.unlimitedSchedule_Left now s = .ok (l, s) ∧
+        Leaf.left (Pandora.Bridge.C02Src.toLeaf s) now = .ok (Pandora.Bridge.C02Src.toLeaf s, l)) ∧
+      ((∃ s', Pandora.Gen.C02Src.unlimitedSchedule_Start s t = .ok ((), s') ∧
+          Leaf.start (Pandora.Bridge.C02Src.toLeaf s) t = .ok (Pandora.Bridge.C02Src.toLeaf s') ∧
+          Pandora.Bridge.C02Src.WF s') ∨
+        (Pandora.Gen.C02Src.unlimitedSchedule_Start s t = .error "schedule is already started" ∧
+          Leaf.start (Pandora.Bridge.C02Src.toLeaf s) t = .error alreadyStarted))) :=
+  ⟨Pandora.Bridge.C02Src.wf_new duration now0, Pandora.Bridge.C02Src.new_leaf duration now0, fun s hs now t =>
+    ⟨Pandora.Bridge.C02Src.next_bridge s hs now, Pandora.Bridge.C02Src.left_bridge s hs now,
+     Pandora.Bridge.C02Src.start_bridge s hs t⟩⟩
+
+/-- **`NewComposite` of the model is the source's**: no children → `NewOnce(0)`, one child → the child itself, and
+otherwise the loop that fills `leftAfter` — last child first, `left[i]` = the accumulator before child i, the unknown
+latch — is the regenerated loop body. -/
+theorem C02_newComposite_is_source {σ : Type} (ops : Ops σ) (now : Int) (c : σ) (rest : List σ) :
+    Pandora.Gen.C02Src.NewComposite_shortcuts = [(0, "NewOnce(0)"), (1, "scheds[0]")] ∧
+    newComposite ops now [] = .ok (.inl ops.once0) ∧ newComposite ops now [c] = .ok (.inl c) ∧
+    Pandora.Gen.C02Src.NewComposite_loopOrder = "lastToFirst" ∧
+    mkLeftAfter ops now (c :: rest) = (do
+      let (rest', laRest, acc, unknown) ← mkLeftAfter ops now rest
+      let (c', l) ← ops.left c now
+      let r := Pandora.Gen.C02Src.NewComposite_loopBody acc unknown l
+      pure (c' :: rest', r.1 :: laRest, r.2.1, r.2.2)) :=
+  ⟨Pandora.Bridge.C02Src.shortcuts_are_source, rfl, rfl, Pandora.Bridge.C02Src.mkLeftAfter_is_source ops now c rest⟩
+
+/-- **`Left` of the model decides what `compositeSchedule.Left` of the source decides** after its reader section —
+return the child's count, `leftAfter[0]`, -1, the sum, or shift and retry — in the concurrent model (`leftReader`)
+and in the one-caller model (`compLeftAux`). -/
+theorem C02_left_is_source {σ : Type} (ops : Ops σ) :
+    (∀ (s : Sh σ) (now : Int) (c : σ) (rest : List σ), s.cs = c :: rest → ∀ (c' : σ) (left : Int),
+      ops.left c now = .ok (c', left) →
+      leftReader ops s now = ({ s with cs := c' :: rest }, Pandora.Bridge.C02Src.outOf (rest.length + 1)
+        (Pandora.Gen.C02Src.compositeSchedule_Left_decide ((rest.length : Int) + 1) (s.la.headD 0) left s.started))) ∧
+    (∀ (started : Bool) (c : σ) (rest : List σ) (la : List Int) (now : Int),
+      compLeftAux ops started c rest la now = (do
+        let (c', left) ← ops.left c now
+        match Pandora.Gen.C02Src.compositeSchedule_Left_decide ((rest.length : Int) + 1) (la.headD 0) left started with
+        | .ret n => pure (⟨c' :: rest, la, started⟩, n)
+        | .shift => Pandora.Bridge.C02Src.seqShift ops started c' rest la now)) :=
+  ⟨fun s now c rest hcs c' left hl => Pandora.Bridge.C02Src.leftReader_is_source ops s now c rest hcs c' left hl,
+   fun started c rest la now => Pandora.Bridge.C02Src.compLeftAux_is_source ops started c rest la now⟩
+
 /-! ## non-vacuity -/
 
 -- the flat spec on [once(1) with duration 5; unlimited(10); once(2)] started at 0, clock 7, 7, 20, 20, 20, 20
@@ -527,5 +739,13 @@ example : Chain 3 (inst [.fin [0, 1, 2] 2, .unl 4, .fin [] 0] 3) :=
 -- Left: known and positive / zero / negative
 example : segLeft [.fin [] 5, .unl 5 9, .fin [10, 10] 10] 9 = 2 ∧ segLeft [.fin [] 5, .unl 5 9, .fin [10, 10] 10] 8 = -1 ∧
     segLeft [.fin [] 5, .unl 5 9] 9 = 0 := by decide
+
+-- the wrapper under overlap: callers 0 and 1 both learn that once(1) is exhausted; 1 runs onFinish, 0 reaches `Do`
+-- meanwhile and is blocked until the callback has returned; onFinish ran once
+example : ((Pandora.Model.C02.CbW.wrun Pandora.Proofs.C02Cb.absInner
+      (Pandora.Model.C02.CbW.winit (.running [.fin [5] 5]) [[.next, .next], [.next]])
+      [(0, 9), (0, 9), (1, 9), (1, 9), (0, 9), (0, 9), (0, 9), (1, 9), (0, 9)]).log.reverse.map (·.2.2)) =
+    [.got (.tok 5 true), .ret (.tok 5 true), .got (.tok 5 false), .cbBegin, .got (.tok 5 false), .blocked, .blocked,
+     .cbEnd, .ret (.tok 5 false), .ret (.tok 5 false)] := by decide
 
 end Pandora.Props.C02
